@@ -41,25 +41,30 @@ def confirm(prop, src, wt):
     return True
 
 
-def run(seed, tier):
-    d = os.path.join(ROOT, 'seeded', seed)
-    meta = json.load(open(os.path.join(d, 'meta.json')))
+TREE = os.environ.get('SEED_TREE', '/repo')      # a scratch worktree may be used instead of /repo (PYTHONPATH puts it first)
+
+
+def run(seed, tier, base=None):
+    d = os.path.join(ROOT, 'seeded', seed) if base is None else os.path.join(base, seed)
+    meta = json.load(open(os.path.join(d, 'meta.json'))) if os.path.exists(os.path.join(d, 'meta.json')) else {'property': seed.split('-')[0]}
     prop = meta['property']
-    assert sh('git -C /repo status --porcelain').stdout.strip() == '', '/repo not clean'
-    a = sh('git -C /repo apply %s' % os.path.join(d, 'patch.diff'))
+    assert sh('git -C %s status --porcelain' % TREE).stdout.strip() == '', '%s not clean' % TREE
+    a = sh('git -C %s apply %s' % (TREE, os.path.join(d, 'patch.diff')))
     if a.returncode:
         print(seed, 'PATCH DOES NOT APPLY', a.stdout[-300:])
         return None
     t0 = time.time()
     try:
-        r = sh('cd %s && ./check %s --tier %s --no-evidence' % (ROOT, prop, tier))
+        env = '' if TREE == '/repo' else 'PYTHONPATH=%s ' % TREE
+        r = sh('cd %s && %s./check %s --tier %s --no-evidence' % (ROOT, env, prop, tier))
     finally:
-        sh('git -C /repo checkout -- .')
+        sh('git -C %s checkout -- .' % TREE)
     caught = r.returncode == 1 and 'VIOLATION property=%s' % prop in r.stdout
     lines = [l for l in r.stdout.splitlines() if l.startswith(('VIOLATION', '  what', 'INCONCLUSIVE'))][:4]
     print('%s: rc=%d %s (%.0fs) %s' % (seed, r.returncode, 'CAUGHT' if caught else 'MISSED', time.time() - t0, ' | '.join(lines)[:400]))
     meta.setdefault('check_results', {})[tier] = {'rc': r.returncode, 'caught': caught, 'first_lines': lines[:2], 'cmd': './check %s --tier %s' % (prop, tier)}
-    json.dump(meta, open(os.path.join(d, 'meta.json'), 'w'), indent=1)
+    if base is None:
+        json.dump(meta, open(os.path.join(d, 'meta.json'), 'w'), indent=1)
     return caught
 
 
